@@ -2266,3 +2266,54 @@ def rewriters(x: Any, new: Any) -> dict[str, Callable[[Any], Any]]:
             root, lambda n: new if n is x else n),
         "CopyMapper-subclass": handler_subclass,
     }
+
+
+# --------------------------------------------------------------------------
+# 12. C20: every node kind that can carry (or delegate) ImplStored does so
+
+def stored_witnesses() -> dict[str, Any]:
+    """For every array kind that can carry the ImplStored tag -- or delegates
+    its ``tags`` to another node (send holders -> passthrough data, named
+    arrays -> dictionary entry, call results -> returned array) -- one graph
+    in which such a stored node is INTERIOR (used by x + 1, not an output) and
+    one in which it is the OUTPUT.  Deterministic."""
+    import pytato as pt
+    from pytato.distributed.nodes import make_distributed_recv, staple_distributed_send
+    from pytato.tags import ImplStored
+    f8 = np.float64
+    S = ImplStored()
+
+    def ph(name: str, shape: tuple = (4, 4), dtype: Any = f8) -> Any:
+        return pt.make_placeholder(name, shape, dtype)
+    x, y = ph("x"), ph("y")
+    idx = ph("idx", (4,), np.int64)
+    A = pt.make_csr_matrix((4, 4), ph("ev", (8,)), ph("ec", (8,), np.int64),
+                           ph("rs", (5,), np.int64))
+    d = pt.make_dict_of_named_arrays({"p": (x + 1).tagged(S), "q": y * 2})
+    call = pt.trace_call(lambda u: (2 * u).tagged(S), pt.cos(x))
+    nodes: dict[str, Any] = {
+        "index_lambda": (x + y).tagged(S),
+        "basic_index": x[1:3, ::2].tagged(S),
+        "adv_index": x[idx].tagged(S),
+        "reshape": pt.reshape(x, (2, 8)).tagged(S),
+        "einsum": pt.einsum("ij,jk->ik", x, y).tagged(S),
+        "roll": pt.roll(x, 1, 0).tagged(S),
+        "transpose": x.T.tagged(S),
+        "stack": pt.stack([x, y]).tagged(S),
+        "concatenate": pt.concatenate([x, y]).tagged(S),
+        "csr_matmul": (A @ x).tagged(S),
+        "recv": make_distributed_recv(src_rank=1, comm_tag=3, shape=(4, 4), dtype=f8).tagged(S),
+        # tags delegated / inherited
+        "send_holder": staple_distributed_send(ph("pay") * 2, dest_rank=1, comm_tag=7,
+                                               stapled_to=(y + 1).tagged(S)),
+        "send_holder_leafdata": staple_distributed_send(ph("pay2"), dest_rank=1, comm_tag=8,
+                                                        stapled_to=pt.sin(y).tagged(S)),
+        "named_array": d["p"],
+        "call_result": call,
+    }
+    W: dict[str, Any] = {}
+    for k, v in nodes.items():
+        W[k + "/interior"] = pt.make_dict_of_named_arrays({"out": v + 1})
+        W[k + "/output"] = pt.make_dict_of_named_arrays({"out": v})
+        W[k + "/output_and_other"] = pt.make_dict_of_named_arrays({"o1": v, "o2": x - y})
+    return W
